@@ -23,6 +23,9 @@
 (*   CounterFirst FALSE: the counter is incremented after the put                           *)
 (*   FreshPipe    FALSE: restart() keeps the old results channel                            *)
 (*   ResetClosed  FALSE: restart() carries _closed over to the new incarnation              *)
+(*   ClosedGuard  FALSE: enqueue() of a process worker tests only is_alive() and relies on  *)
+(*                the send failing: on a closed but still running worker it raises OSError   *)
+(*                ("handle is closed") instead of WorkerClosedError                         *)
 (*   BlockAfterClose FALSE: next_result() reads without blocking as soon as _closed is set  *)
 (*                (not only when the worker is dead): a blocking read issued after close()  *)
 (*                while the child still owes results reports the end of the stream early    *)
@@ -51,7 +54,7 @@ EXTENDS Naturals, Sequences, FiniteSets, TLC, PersistentProps
 
 CONSTANTS Kinds, DTypes, DArgsSet, DKwSet, Shapes, Ops, MaxSteps, MaxEnq, MaxRestarts,
           Settle, Hist, AllowBlock, TupleFix, CounterFirst, FreshPipe, ResetClosed, BlockAfterClose,
-          BusyTicks, SlowTicks, WaitT, TermT, WaitTruthful, TermOwnTimeout
+          BusyTicks, SlowTicks, WaitT, TermT, WaitTruthful, TermOwnTimeout, ClosedGuard
 
 VARIABLES kind, dtype, dargs, dkw,               \* scenario
           ppc, pend, closed, pdead, late,        \* parent: pc, call in progress, _closed, _dead, "after close/death"
@@ -137,7 +140,8 @@ CloseEff(al) == IF closed \/ (kind # "process" /\ ~al) THEN UNCHANGED <<closed, 
 DoEnqG(op, it, guard) ==
    /\ guard /\ nenq < MaxEnq
    /\ LET ok == Alive /\ ~closed
-          out == IF ok THEN "ok" ELSE "WCE"
+          out == IF ok THEN "ok"
+                 ELSE IF ~ClosedGuard /\ kind = "process" /\ Alive /\ closed THEN "raised:OSError" ELSE "WCE"
       IN /\ argsQ' = (IF ok THEN Append(argsQ, it) ELSE argsQ)
          /\ I' = [I EXCEPT !.enq = (IF ok THEN Append(@, it) ELSE @),
                            !.late = (IF late THEN Append(@, out) ELSE @),
@@ -457,6 +461,7 @@ Live_Returns == [](ppc \in {"next", "call", "wait", "term", "rst", "fin"} => <>(
 W_NoFullStream == ~(Terminal /\ Len(I.enq) >= 2 /\ Len(Valid(I.raw)) = Len(I.enq) /\ I.waited = "T")
 W_NoLate       == ~(Len(I.late) > 0)
 W_NoCleanCall  == ~(\E j \in 1..Len(I.calls) : I.calls[j].out = "val")
+W_NoEnqueueOnClosedRunning == ~(Len(I.late) > 0 /\ closed /\ cpc \in {"run", "send"} /\ ppc = "ready")
 W_NoBlockingReadAfterClose == ~(ppc = "next" /\ closed /\ resQ = <<>> /\ cpc \in {"run", "send"})
 W_NoLongerArgs == ~(\E k \in 1..Len(I.enq) : Len(I.enq[k].a) > Len(dargs) /\ Len(dargs) > 0 /\ Len(Valid(I.raw)) >= k)
 W_NoRestartUnread == ~(Len(done) > 0 /\ Len(done[1].enq) > Len(Valid(done[1].raw)) /\ Len(Valid(I.raw)) > 0)
